@@ -3574,6 +3574,29 @@ def check_reads_file(ctx, tu):
         cf = tu.callee_fn(x)
         return cf is not None and cf['id'] in readers and cf['id'] != f['id']
 
+    # a read may be skipped because there is nothing to read: a loop / if around the read whose condition is arithmetic on integer variables
+    # only (`while (numRead < numBytes)`, `if (numBytes > 0)`) - no call, no pointer or object operand
+    size_guards = set()
+    for x in tu.walk(tu.body(f)):
+        if is_read(x):
+            cur = tu.par(x)
+            while cur is not None and cur.get('id') != f['id']:
+                if cur.get('kind') in ('IfStmt', 'WhileStmt', 'ForStmt', 'DoStmt'):
+                    size_guards.add(cur['id'])
+                cur = tu.par(cur)
+
+    def arithmetic_only(c):
+        if c is None:
+            return False
+        for y in tu.walk(c):
+            k = y.get('kind')
+            if k in CALLS or k in ('CXXMemberCallExpr', 'MemberExpr', 'CXXThisExpr', 'LambdaExpr'):
+                return False
+            if k == 'DeclRefExpr' and not re.match(r'^(const )?(unsigned |signed )?(long long|long|int|short|char|size_t|ssize_t|std::size_t|off_t|__off_t|ptrdiff_t)( int)?( const)?$',
+                                                   y.get('type', {}).get('qualType', '')):
+                return False
+        return True
+
     def transfer(blk, i, el, st):
         if el[0] != 'S':
             return [st]
@@ -3585,8 +3608,13 @@ def check_reads_file(ctx, tu):
         if x.get('kind') == 'ReturnStmt' and not st:
             bad.append(x)
         return [st]
+
+    def refine(blk, si, st):
+        if not st and blk.term in size_guards and arithmetic_only(tu.node(blk.cond) if blk.cond else None):
+            return [True]
+        return [st]
     try:
-        g.explore([False], transfer, None)
+        g.explore([False], transfer, refine)
     except RuntimeError:
         ctx.undecided(R, 'xml::readXML', 'state explosion', tu.fn_loc(f))
         return
